@@ -8,12 +8,14 @@ All theorems are proved as stated.  They are consequences of one global inductiv
 API operation: `Iox2/Proof/PubSubC02StepSub.lean`, `Iox2/Proof/PubSubC02StepPub.lean`
 (`step_inv`, `reach_inv`); consequences: `Iox2/Proof/PubSubC02Final.lean`,
 `Iox2/Proof/PubSubC02Loan.lean`; concrete histories: `Iox2/Proof/PubSubC02Examples.lean`).
-The hypothesis `cfg.Sane` is not needed by any of the proofs.
+No hypothesis on the configuration is needed: the theorems hold for every `Cfg`, including worlds whose publishers use
+`override_sample_preallocation` (`Cfg.prealloc = some k`: fewer chunks than the worst case, loans may fail with OutOfMemory).
 -/
 import Iox2.Model.PubSub
 import Iox2.Proof.PubSubC02StepPub
 import Iox2.Proof.PubSubC02Loan
 import Iox2.Proof.PubSubC02Examples
+import Iox2.Proof.PubSubC08PubB
 namespace Iox2.PubSub.C02
 open Iox2.PubSub
 
@@ -44,7 +46,7 @@ def refCount (w : World) (p : Nat) (P : Pub) (c : Nat) : Nat :=
 
 /-- No reuse while referenced: a free (loanable) chunk is referenced by nothing. `loan` only ever
 hands out the head of `free` (see `step`), so a chunk that is referenced is never handed out. -/
-theorem free_not_referenced (cfg : Cfg) (hc : cfg.Sane) (w : World) (h : Reach cfg w)
+theorem free_not_referenced (cfg : Cfg) (w : World) (h : Reach cfg w)
     (p : Nat) (P : Pub) (hp : PubEx w p P) (c : Nat) (hf : c ∈ P.free) :
     ¬ Referenced w p P c := by
   have hi := C02P.reach_inv h
@@ -56,7 +58,7 @@ theorem free_not_referenced (cfg : Cfg) (hc : cfg.Sane) (w : World) (h : Reach c
   · exact r4 s S hd hS ha hh hpid hch
 
 /-- … in particular the chunk a successful `loan` returns was unreferenced before the call. -/
-theorem loan_returns_unreferenced (cfg : Cfg) (hc : cfg.Sane) (w : World) (h : Reach cfg w)
+theorem loan_returns_unreferenced (cfg : Cfg) (w : World) (h : Reach cfg w)
     (hnp : w.panicked = false) (p l : Nat) (hok : (step w (.loan p l)).2 = "ok") :
     ∃ P' c, getP (step w (.loan p l)).1 p = some P' ∧ (l, c) ∈ P'.loans ∧
       ∀ P, getP w p = some P → ¬ Referenced w p P c := by
@@ -73,20 +75,20 @@ theorem loan_returns_unreferenced (cfg : Cfg) (hc : cfg.Sane) (w : World) (h : R
 
 /-- The bytes seen through a held sample never change: for a live subscriber the memory of the
 chunk still holds the value that was read when the sample was received. -/
-theorem held_sample_stable (cfg : Cfg) (hc : cfg.Sane) (w : World) (h : Reach cfg w)
+theorem held_sample_stable (cfg : Cfg) (w : World) (h : Reach cfg w)
     (s : Nat) (S : Sub) (hs : getS w s = some S) (hl : S.alive = true) (hd : Held) (hh : hd ∈ S.held) :
     ∃ P, getP w hd.pid = some P ∧ P.payload.getD hd.chunk 0 = hd.tag :=
   C02P.final_held_stable (C02P.reach_inv h) hs hl hh
 
 /-- The reference counter is exact (conservation law): it equals the number of loans, history
 entries and connections (of the publisher's current connection array) that hold the chunk. -/
-theorem refcount_exact (cfg : Cfg) (hc : cfg.Sane) (w : World) (h : Reach cfg w)
+theorem refcount_exact (cfg : Cfg) (w : World) (h : Reach cfg w)
     (p : Nat) (P : Pub) (hp : PubEx w p P) (c : Nat) (hlt : c < P.n) :
     P.rc.getD c 0 = refCount w p P c :=
   C02P.final_refcount (C02P.reach_inv h) hp.1 hp.2 hlt
 
 /-- No leak: a chunk is loanable exactly when its counter is zero; the free list has no duplicates. -/
-theorem free_iff_unreferenced (cfg : Cfg) (hc : cfg.Sane) (w : World) (h : Reach cfg w)
+theorem free_iff_unreferenced (cfg : Cfg) (w : World) (h : Reach cfg w)
     (p : Nat) (P : Pub) (hp : PubEx w p P) :
     P.free.Nodup ∧ P.rc.length = P.n ∧ ∀ c, c ∈ P.free ↔ (c < P.n ∧ P.rc.getD c 0 = 0) :=
   C02P.final_free (C02P.reach_inv h) hp.1 hp.2
@@ -94,12 +96,48 @@ theorem free_iff_unreferenced (cfg : Cfg) (hc : cfg.Sane) (w : World) (h : Reach
 /-- What a connection still owns is exactly what is in flight on it: the used chunk list of a
 connection the publisher is attached to has one bit per entry of the submission queue, per sample
 borrowed by the receiver and per entry of the completion queue; these are pairwise distinct. -/
-theorem used_is_in_flight (cfg : Cfg) (hc : cfg.Sane) (w : World) (h : Reach cfg w)
+theorem used_is_in_flight (cfg : Cfg) (w : World) (h : Reach cfg w)
     (cn : Conn) (hcn : cn ∈ w.conns) (hs : cn.sAtt = true) :
     (cn.used.filter id).length = cn.sub.length + cn.borrow + cn.comp.length ∧
     (cn.sub.map (·.1) ++ cn.comp).Nodup ∧
     ∀ c ∈ cn.sub.map (·.1) ++ cn.comp, cn.used.getD c false = true :=
   C02P.final_in_flight (C02P.reach_inv h) hcn hs
+
+/-- No leak through a refused loan: a `loan` that is refused — because the loan limit is reached or, for publishers with a
+preallocation override, because no chunk is free — consumes nothing of the loan budget: the publisher's loan counter, its
+outstanding loans and its limit are what they were, so "after any history the publisher can again loan its full configured
+number of samples" is not eroded by failed attempts.  Holds for every world and configuration (no reachability needed). -/
+theorem refused_loan_keeps_loan_budget (w : World) (p l : Nat) (P : Pub) (hp : getP w p = some P)
+    (hr : (step w (.loan p l)).2 = "err:OutOfMemory" ∨ (step w (.loan p l)).2 = "err:ExceedsMaxLoans") :
+    ∃ P', getP (step w (.loan p l)).1 p = some P' ∧ P'.loanCnt = P.loanCnt ∧ P'.loans = P.loans ∧
+      P'.maxLoans = P.maxLoans ∧ P'.n = P.n := by
+  obtain ⟨_, s2, _, _⟩ := C08.retrieveReturned_shape w p
+  obtain ⟨P1, hp1, e⟩ := s2 P hp
+  obtain ⟨f1, f2, f3, f4, f5, f6, f7, f8, f9, f10, f11, f12, f13, f14, f15⟩ := e.fields
+  simp only [step, hp, hp1] at hr ⊢
+  by_cases ha : (!P.alive) = true
+  · rw [if_pos ha] at hr; simp at hr
+  rw [if_neg ha] at hr ⊢
+  by_cases hd : (List.find? (fun x => decide (x.fst = l)) P.loans).isSome = true
+  · rw [if_pos hd] at hr; simp at hr
+  rw [if_neg hd] at hr ⊢
+  by_cases hm : P1.loanCnt ≥ P1.maxLoans
+  · rw [if_pos hm]; exact ⟨P1, hp1, f6, f11, f4, f5⟩
+  rw [if_neg hm] at hr ⊢
+  cases hf : P1.free with
+  | nil => exact ⟨P1, hp1, f6, f11, f4, f5⟩
+  | cons c rest =>
+    rw [hf] at hr
+    dsimp only at hr
+    split at hr <;> simp at hr
+
+/-- non-vacuity: with a preallocation override of one chunk the second loan is refused for lack of memory although the loan
+limit (3) is not reached; without the override the same loan succeeds -/
+example :
+    let cfg : Cfg := { maxPubs := 1, maxSubs := 1, bufMax := 1, hist := 0, borrowMax := 1, overflow := false, expired := 1 }
+    (step (run (World.init { cfg with prealloc := some 1 }) [.cpub 0 3, .loan 0 0]) (.loan 0 1)).2 = "err:OutOfMemory" ∧
+    (step (run (World.init cfg) [.cpub 0 3, .loan 0 0]) (.loan 0 1)).2 = "ok" := by
+  decide
 
 /-- FALSE for samples whose subscriber port was dropped (finding D16): `held_sample_stable`
 without `S.alive`.  Prove the refutation with a concrete history. -/
